@@ -488,4 +488,43 @@ theorem matmul2d_FT_adjoint_left (a b x : Tensor S) (m k n : Nat) (ha : a.dims =
   · rw [← hwa.2, ha]; simp [prod]
   · rw [← hwx.2, hx]; simp [prod]
 
+/-- the buffer of `xᵀ · a` (`x : m×n`, `a : m×k`), in `[n,k]` layout: the right closure's product for `a · bᵀ` -/
+def mmBufXtA (n m k : Nat) (xv av : List S) : List S :=
+  (List.range (n * k)).map (fun i => sumRange m (fun r => av.getD (r * k + i % k) zero * xv.getD (r * n + i / k) zero))
+
+/-- **buffer level, right operand of `a · bᵀ`** (`b : n×k` row-major): `⟨a·bᵀ, x⟩ = ⟨b, xᵀ·a⟩` -/
+theorem mmBufG_adjoint_right_T (m k n : Nat) (av bv xv : List S) (hb : bv.length = n * k) (hx : xv.length = m * n) :
+    dot (mmBufG m k n av (fun t j => bv.getD (j * k + t) zero)) xv = dot bv (mmBufXtA n m k xv av) := by
+  rw [dot_eq_sumRange _ _ (by simp [mmBufG, hx]), dot_eq_sumRange _ _ (by simp [mmBufXtA, hb])]
+  have l1 : (mmBufG m k n av (fun t j => bv.getD (j * k + t) zero)).length = m * n := by simp [mmBufG]
+  rw [l1, hb, sumRange_mul_split, sumRange_mul_split]
+  rw [sumRange_congr_lt m (g := fun r => sumRange n (fun j =>
+      sumRange k (fun t => av.getD (r * k + t) zero * bv.getD (j * k + t) zero) * xv.getD (r * n + j) zero))
+    (fun r hr => sumRange_congr_lt n (fun j hj => by
+      show (mmBufG m k n av (fun t j => bv.getD (j * k + t) zero)).getD (r * n + j) zero * _ = _
+      rw [mmBufG, getD_map_range_adj _ _ _ (mul_add_lt r j n m hr hj), (divmod_mul_add r n j hj).1, (divmod_mul_add r n j hj).2]))]
+  rw [matmul_kernel_adjoint_right m k n (fun r t => av.getD (r * k + t) zero) (fun t j => bv.getD (j * k + t) zero)
+    (fun r j => xv.getD (r * n + j) zero),
+    sumRange_comm (fun t j => bv.getD (j * k + t) zero * sumRange m (fun r => av.getD (r * k + t) zero * xv.getD (r * n + j) zero)) n k]
+  refine sumRange_congr_lt n (fun j hj => sumRange_congr_lt k (fun t ht => ?_))
+  show _ = bv.getD (j * k + t) zero * (mmBufXtA n m k xv av).getD (j * k + t) zero
+  rw [mmBufXtA, getD_map_range_adj _ _ _ (mul_add_lt j t k n hj ht), (divmod_mul_add j k t ht).1, (divmod_mul_add j k t ht).2]
+
+/-- the right closure's product `xᵀ · a` on the specification product -/
+theorem specMatmul_2d_vals_XtA (x a : Tensor S) (m k n : Nat) (hx : x.dims = [m, n]) (ha : a.dims = [m, k]) :
+    (specMatmul x true a false none).vals = mmBufXtA n m k x.vals a.vals := by
+  simp only [specMatmul, Tensor.ofFn, hx, ha, mmBufXtA]
+  simp [bdims, bdimsRev, prod, unflatten, proj, Tensor.get, rowMajor, hx, ha, AddLaws.zero_add]
+  intro i _
+  exact sumRange_congr_adj (fun t => CommLaws.mul_comm _ _)
+
+/-- **`a · bᵀ`, right operand**: `⟨a·bᵀ, x⟩ = ⟨b, xᵀ·a⟩` -/
+theorem matmul2d_FT_adjoint_right (a b x : Tensor S) (m k n : Nat) (ha : a.dims = [m, k]) (hb : b.dims = [n, k])
+    (hx : x.dims = [m, n]) (hwb : b.WF) (hwx : x.WF) :
+    dot (specMatmul a false b true none).vals x.vals = dot b.vals (specMatmul x true a false none).vals := by
+  rw [specMatmul_2d_vals_FT a b m k n ha hb, specMatmul_2d_vals_XtA x a m k n hx ha]
+  apply mmBufG_adjoint_right_T
+  · rw [← hwb.2, hb]; simp [prod]
+  · rw [← hwx.2, hx]; simp [prod]
+
 end Corgi
